@@ -68,7 +68,7 @@ pub fn build_union_fingerprints(schemas: &BTreeMap<String, ObjectSchema>) -> Uni
   for (name, schema) in schemas {
     for variants in [&schema.one_of, &schema.any_of] {
       let refs = extract_union_fingerprint(variants);
-      if refs.len() >= 2 && refs.len() == variants.len() {
+      if refs.len() >= 2 && refs.len() == variants.len() && schema.discriminator.is_none() {
         fingerprints.insert(refs, name.clone());
       }
     }
